@@ -119,8 +119,27 @@ def session(rng, cuts):
     return s.ops
 
 
+def many_session(rng):
+    """a connection holding more subscriptions than the presence queue has slots (100) ends while the watcher is not
+    reading: every one of them must still be reported as gone, once"""
+    s = Session(rng, mode="emitter")
+    s.key("KA", R | W | P)
+    s.conn("w1", user=b"watch")
+    s.presence("w1", "KA", b"a/", status=False, changes=True)
+    s.conn("v1", user=b"vic")
+    n = rng.choice([115, 130])
+    for i in range(n):
+        s.sub("v1", "KA", b"a/x%d/" % i)
+    s.ops.append("closeheld v1 w1")
+    s.clients.remove("v1")
+    s.dump()
+    return s.ops
+
+
 def gen(rng, tier):
     ops = []
+    for _ in range(budget(tier, 1, 6)):
+        ops += many_session(rng)
     for _ in range(budget(tier, 6, 120)):
         ops += session(rng, budget(tier, 14, 60))
     return ops
